@@ -407,6 +407,8 @@ def extract_all(outdir: str = GEN) -> dict:
     out.append("def literals : List Nat := " + "[" + ", ".join(str(ord(c)) for c in lx.lexliterals) + "]")
     out.append("def ignore : List Nat := " + "[" + ", ".join(str(ord(c)) for c in lx.lexignore) + "]")
     out.append("def keywords : List String := " + lstrs(sorted(L.PlyLexer.keywords)))
+    # every token type the lexer declares that is not an upper-case class name: the keyword types
+    out.append("def keywordTokenTypes : List String := " + lstrs(sorted(t for t in L.PlyLexer.tokens if not t.isupper())))
     out.append(f"def tErrorStandard : Bool := {lbool(terror_std)}")
     out.append(f"def errorFnStandard : Bool := {lbool(error_std)}")
     out.append(f"def currentLocationStandard : Bool := {lbool(curloc_std)}")
